@@ -117,6 +117,10 @@ fn transcript(engine: &mut Engine, evals: &[String]) -> Vec<String> {
     t
 }
 
+/// Real-time limit for one configuration (seconds); the histories take
+/// milliseconds to seconds.
+const CONFIG_TIMEOUT_S: u32 = 40;
+
 /// Run the history under `cfg` in a forked grandchild and return its transcript.
 fn run_config(cfg: Config, evals: &[String], fresh_engine: bool, spec: &Spec) -> Result<Vec<String>, String> {
     let mut fds = [0i32; 2];
@@ -132,8 +136,17 @@ fn run_config(cfg: Config, evals: &[String], fresh_engine: bool, spec: &Spec) ->
     if pid == 0 {
         unsafe { libc::close(fds[0]) };
         // grandchild: its only channel is this pipe; a panic is caught and
-        // reported through it, a crash shows as a short read
-        report::REPORT_FD.store(-1, std::sync::atomic::Ordering::SeqCst);
+        // reported through it, a crash shows as a short read. It must not keep
+        // the run's report pipe open (the driver waits for end-of-file on it),
+        // must not outlive the run, and must not run for ever.
+        let inherited = report::REPORT_FD.swap(-1, std::sync::atomic::Ordering::SeqCst);
+        unsafe {
+            if inherited >= 0 {
+                libc::close(inherited);
+            }
+            libc::prctl(libc::PR_SET_PDEATHSIG, libc::SIGKILL);
+            libc::alarm(CONFIG_TIMEOUT_S);
+        }
         static PANIC_MSG: std::sync::Mutex<String> = std::sync::Mutex::new(String::new());
         std::panic::set_hook(Box::new(|info| {
             let msg = if let Some(s) = info.payload().downcast_ref::<&str>() {
@@ -195,7 +208,13 @@ fn run_config(cfg: Config, evals: &[String], fresh_engine: bool, spec: &Spec) ->
             }
             Ok(v["transcript"].as_array().into_iter().flatten().map(|s| s.as_str().unwrap_or("").to_string()).collect())
         }
-        Err(_) => Err(format!("process ended without a transcript (status {})", status)),
+        Err(_) => {
+            if libc::WIFSIGNALED(status) && libc::WTERMSIG(status) == libc::SIGALRM {
+                // did not finish in time: an outcome like any other, compared across configurations
+                return Ok(vec![format!("Timeout: no result within {} s", CONFIG_TIMEOUT_S)]);
+            }
+            Err(format!("process ended without a transcript (status {})", status))
+        }
     }
 }
 
@@ -269,6 +288,10 @@ impl Scenario for C02 {
             ),
         };
         report::set_nontrivial(base.iter().filter(|l| l.starts_with("Ok:")).count() >= 2);
+        if base.iter().any(|l| l.starts_with("Timeout:")) {
+            report::probe("reference-configuration-timed-out");
+            report::set_extra("timed_out_source", json!(evals.join("\n;;;;\n").chars().take(4000).collect::<String>()));
+        }
         for bits in w["configs"].as_array().into_iter().flatten() {
             let cfg = Config::from_bits(bits.as_u64().unwrap_or(0));
             report::fault(&format!("config:{}", cfg.name()));
